@@ -14,18 +14,27 @@ use crate::program::*;
 //-------------------------------------------------------------------------------------------------------------------
 // Reactive components and resources
 
-#[derive(Debug, Clone, PartialEq, Eq)]
+// Equality is deliberately NOT structural: only the low nibble (the "value") is compared, the high nibble is a tag
+// that equal values may differ in. `set_if_neq` must therefore leave the stored (tagged) value alone when the new
+// one compares equal - storing it anyway would be an un-reacted mutation that the accessor engine can see.
+#[derive(Debug, Clone)]
 pub struct CA(pub u8);
 impl ReactComponent for CA {}
-#[derive(Debug, Clone, PartialEq, Eq)]
+#[derive(Debug, Clone)]
 pub struct CB(pub u8);
 impl ReactComponent for CB {}
 
-#[derive(Debug, Clone, PartialEq, Eq, Default)]
+#[derive(Debug, Clone, Default)]
 pub struct RA(pub u8);
 impl ReactResource for RA {}
-#[derive(Debug, Clone, PartialEq, Eq, Default)]
+#[derive(Debug, Clone, Default)]
 pub struct RB(pub u8);
+
+macro_rules! value_eq { ($($t:ty),*) => { $(
+    impl PartialEq for $t { fn eq(&self, other: &Self) -> bool { self.0 & 0x0F == other.0 & 0x0F } }
+    impl Eq for $t {}
+)* } }
+value_eq!(CA, CB, RA, RB);
 impl ReactResource for RB {}
 
 //-------------------------------------------------------------------------------------------------------------------
@@ -230,6 +239,9 @@ pub enum Ev
     AnonRun{ local_n: u32, readings: Readings },
     /// change detection as seen by the run that just began: `ReactRes<RA>` / `ReactRes<RB>` `.is_changed()`
     ChangeSample{ changed: [bool; 2], resample: bool },
+    /// exclusive systems only: `World::is_react_resource_changed` for RA / RB, i.e. change detection relative to the
+    /// exclusive system's own last run (which Bevy records after the system's flush)
+    WorldChangeSample{ changed: [bool; 2] },
     Probe{ readings: Readings, exclusive: bool },
     PayloadDrop(u32),
     CanaryDrop(SysUid),
